@@ -313,7 +313,8 @@ impl Loop3D {
             let a = self.vertices[n - 2];
             let b = self.vertices[n - 1];
 
-            if a.is_collinear(b, point).unwrap() {
+            // three coincident points count as collinear
+            if a.is_collinear(b, point).unwrap_or(true) {
                 // if it is collinear, update last point instead of
                 // adding a new one
                 self.vertices[n - 1] = point;
